@@ -89,4 +89,23 @@ def supported (s : Stmt) : Bool :=
         | .nested _ inner => flatParts inner.parts && !(partsHaveOp inner.parts)
         | _ => true))
 
+mutual
+def Expr.parenText : Expr → Bool
+  | .leaf t => t.contains '('
+  | .comb _ l r => l.parenText || r.parenText
+  | .chain _ a b es => a.parenText || b.parenText || parenTextList es
+  | .shared l e r => (l.getD []).contains '(' || (r.getD []).contains '(' || e.parenText
+def parenTextList : List Expr → Bool
+  | [] => false
+  | e :: es => e.parenText || parenTextList es
+end
+
+/-- a parenthesised phrase inside a combination (in a value or in shared text): the
+    boundary-based extraction of `ParseIntoNodeTree` treats it as a further parenthesis level
+    (known-finding class `C01-parenthesised-phrase-inside-combination`) -/
+def parenInCombo (s : Stmt) : Bool :=
+  s.parts.any fun p => match p with
+    | .ann _ _ e => e.hasOp && e.parenText
+    | _ => false
+
 end IGVerif
